@@ -127,6 +127,25 @@ def r_state_order(run, F, rule="R-ORDERED"):
             ok2 = dl is not None and ((dl[0] == "ok?") or (dl[0] == "proj" and str(dl[2]).startswith("Some.") and is_call(dl[1]))) and \
                 any(is_call(x) and x[1].endswith("::from_u8") for x in subterms(dl))
             run.ob(rule, "parse_delimiter: new current group has the decoded delimiter", ok2, tshow(v)[:100], site(b), key="%s|parse_delimiter|new-group" % rule)
+    # add_last_attribute keeps the value-list stack balanced: it opens a fresh list exactly on the paths where it closed the pending one
+    # (a push without a pop grows the stack with every delimiter until the depth limit refuses a well-formed message; a pop without
+    # a push leaves the next attribute's values with nowhere to go)
+    ab = F.body("ipp::parser::ParserState::add_last_attribute")
+    if ab is None:
+        run.anchor_lost(rule, "ipp::parser::ParserState::add_last_attribute")
+    else:
+        ctx = ("field", ("var", "self"), "context")
+        for p in paths_of(ab):
+            if p.kind == "try":
+                continue
+            calls = [t for t, _ in all_calls(p)]
+            pops = [t for t in calls if t[1].startswith("std::vec::Vec::<T, A>::") and t[1].split("::")[-1] in ("pop", "remove", "swap_remove", "truncate", "clear", "drain", "split_off") and t[2] and t[2][0] == ctx]
+            pushes = [t for t in calls if t[1].startswith("std::vec::Vec::<T, A>::") and t[1].split("::")[-1] in ("push", "insert", "extend", "append", "resize") and t[2] and t[2][0] == ctx]
+            took = any(c[0] == "match" and is_call(c[1], "std::option::Option::<T>::take") and opt_polarity(c) is True for c in p.conds)
+            run.ob(rule, "add_last_attribute: value-list stack balanced (one pop and one push when an attribute is pending, none otherwise)",
+                   len(pops) == len(pushes) and len(pops) == (1 if took else 0),
+                   "%d pop(s), %d push(es) on a path where an attribute %s pending [%s]" % (len(pops), len(pushes), "is" if took else "is not", " && ".join(cshow(c) for c in p.conds)[:160]),
+                   site(ab), key="%s|add_last_attribute|balance|%s" % (rule, took))
     # list_or_value: one value -> scalar, otherwise the list as a set
     lb = F.body("ipp::parser::list_or_value")
     if lb is None:
@@ -134,16 +153,22 @@ def r_state_order(run, F, rule="R-ORDERED"):
     else:
         seen = set()
         for p in paths_of(lb):
-            one = None
+            one, conv = None, None
             for c in p.conds:
                 if c[0] == "if" and c[1][0] == "bin" and c[1][1] == "Eq" and is_call(c[1][2], "std::vec::Vec::<T, A>::len") and c[1][3] == ("lit", 1):
                     one = c[2]
+                # `<[IppValue; 1]>::try_from(list)`: Ok([x]) exactly when the list has one element, the untouched list back in Err otherwise
+                if c[0] == "match" and is_call(c[1], "std::convert::TryFrom::try_from") and c[1][2] == [("var", "list")] and len(c[1]) > 3 and \
+                        str((c[1][3] or {}).get("ty", "")).replace(" ", "").startswith("std::result::Result<[ipp::value::IppValue;1],"):
+                    one, conv = opt_polarity(c), c[1]
             r = p.ret
             if one is True:
-                ok = is_call(r, "std::vec::Vec::<T, A>::remove") and r[2][0] == ("var", "list") and r[2][1] == ("lit", 0)
+                ok = (is_call(r, "std::vec::Vec::<T, A>::remove", "std::vec::Vec::<T, A>::swap_remove") and r[2][0] == ("var", "list") and r[2][1] == ("lit", 0)) or \
+                    (conv is not None and r == ("index", ("proj", conv, "Ok.0"), ("lit", 0)))
                 seen.add("one")
             elif one is False:
-                ok = r == ("ctor", "ipp::value::IppValue::Array", [("var", "list")])
+                ok = r == ("ctor", "ipp::value::IppValue::Array", [("var", "list")]) or \
+                    (conv is not None and r == ("ctor", "ipp::value::IppValue::Array", [("proj", conv, "Err.0")]))
                 seen.add("many")
             else:
                 ok = False
